@@ -1059,6 +1059,30 @@ def glue_check(rep, H, tier):
     finally:
         if saved is not None:
             g[name] = saved
+    # an ISO address claim goes through more code after its per-PGN function (the source identity is built from the
+    # decoded fields): every claim whose fields lie inside their database ranges must come back as a message
+    nm = z3.BitVec("claim_name", 64)
+    inr = [z3.ULE(z3.Extract(20, 0, nm), 2097148), z3.ULE(z3.Extract(34, 32, nm), 6), z3.ULE(z3.Extract(39, 35, nm), 29), z3.ULE(z3.Extract(59, 56, nm), 13)]
+    csrc = z3.BitVec("claim_src", 8)
+
+    def hclaim():
+        dec = R.decoder.NMEA2000Decoder()
+        data = SymBytes([SymInt(z3.ZeroExt(1, z3.Extract(8 * i + 7, 8 * i, nm)), 8) for i in reversed(range(8))])
+        m = dec._call_decode_function(60928, 6, SymInt(z3.ZeroExt(1, csrc), 8), 255, datetime(2021, 2, 3), data, None, b"")
+        return m is not None and m.source_iso_name is not None
+    try:
+        paths, ex = explore(hclaim, max_paths=4096, assumptions=inr)
+        for pa in paths:
+            if pa.kind == "return" and pa.value:
+                continue
+            st0, m0 = satisfiable(z3.And(pa.cond(), *inr))
+            if st0 == "sat":
+                rep.violation({"kind": "claim-glue"}, "an ISO address claim whose fields are all inside their database ranges %s" % (
+                    "makes the decoder raise %r" % (pa.value,) if pa.kind != "return" else "is not returned with its identity"),
+                    {"kind": "claimglue", "name": m0.eval(nm, True).as_long(), "src": m0.eval(csrc, True).as_long()})
+        rep.count("address_claim_glue_paths", len(paths))
+    except Unsupported as e:
+        rep.inconc("address claim glue: %s" % (e,))
 
 
 def time_truncation_lemma(rep):
@@ -1239,6 +1263,13 @@ def replay(r):
     if k == "trunc":
         x = r["x"]
         return int(x * 0.0001) != x // 10000, "int(%d * 0.0001) = %d, %d // 10000 = %d" % (x, int(x * 0.0001), x, x // 10000)
+    if k == "claimglue":
+        from datetime import datetime
+        try:
+            m = N.decoder.NMEA2000Decoder()._call_decode_function(60928, 6, r["src"], 255, datetime(2021, 2, 3), r["name"].to_bytes(8, "little")[::-1], None, b"")
+        except Exception as e:
+            return True, "address claim NAME %#x: decoder raised %r" % (r["name"], e)
+        return m is None or m.source_iso_name is None, "address claim NAME %#x -> %r" % (r["name"], m)
     if k == "dtkernel":
         import datetime as _dtm
         import math
